@@ -731,6 +731,7 @@ func lazyGen(g *Gen) {
 		g.Count("stream fixed")
 	}
 	lazySmallScope(g)
+	lazyHistories(g)
 	nR, nM, nS := 1500, 500, 300
 	if g.Thorough() {
 		nR, nM, nS = 50000, 12000, 6000
